@@ -57,11 +57,20 @@ def build(repo='/repo', asan=False, quiet=True):
         flags = ['g++', '-O2']
     flags += ['-shared', '-fPIC', '-std=c++17', '-fno-fast-math', '-ffp-contract=off',
               '-I', os.path.join(HERE, 'minipb'), '-I', inc, '-I', core]
-    tag = tree_hash(core, flags) + ('-asan' if asan else '')
+    # (the hash covers the compiler options and every source file, not the location of the checkout)
+    tag = tree_hash(core, [f for f in flags if not f.startswith('/')]) + ('-asan' if asan else '')
     out = os.path.join(VERIF, 'build', 'core', tag)
     stamp = os.path.join(out, 'OK')
     if os.path.exists(stamp):
+        try:
+            os.utime(out, None)          # recently used builds are evicted last
+        except OSError:
+            pass
         return out
+    # build in a private directory and publish it with one rename, so that concurrent checks that need the
+    # same build never see (or delete) a half-written one
+    final = out
+    out = '%s.tmp%d' % (final, os.getpid())
     if os.path.isdir(out):
         shutil.rmtree(out)
     os.makedirs(out)
@@ -79,12 +88,18 @@ def build(repo='/repo', asan=False, quiet=True):
     if bad:
         for m, e in bad:
             sys.stderr.write('build_core: %s failed\n%s\n' % (m, e))
+        shutil.rmtree(out, ignore_errors=True)
         raise SystemExit(3)
-    open(stamp, 'w').write('ok\n')
-    # keep at most 6 cached builds
+    open(os.path.join(out, 'OK'), 'w').write('ok\n')
+    try:
+        os.rename(out, final)
+    except OSError:
+        shutil.rmtree(out, ignore_errors=True)      # somebody else published the same build first
+    out = final
+    # keep at most 12 cached builds
     base = os.path.dirname(out)
     dirs = sorted((os.path.getmtime(os.path.join(base, d)), d) for d in os.listdir(base))
-    for _, d in dirs[:-6]:
+    for _, d in dirs[:-12]:
         shutil.rmtree(os.path.join(base, d), ignore_errors=True)
     return out
 
